@@ -10,9 +10,12 @@ open DmlcModel
 
 def notDelimB (delim : Nat) (b : UInt8) : Bool := Gen.Parse.csvNotDelim b.toNat delim
 
-/-- the conversion of the cell at the start of `s`: value and number of bytes consumed -/
-def csvCellS (gC : Bytes → Res (Nat × Nat)) (s : Bytes) : Res (Nat × Nat) :=
-  if (s.dropWhile isCellSpaceB).isEmpty then .ok (0, 0) else gC (s.takeWhile nonStopB)
+/-- the conversion of the cell at the start of `s`: value and number of bytes consumed.  The guard of the repaired
+source (fixes/C12-3.diff): nothing but cell space up to the delimiter `delim` or the line end = a missing value -/
+def csvCellS (gC : Bytes → Res (Nat × Nat)) (delim : Nat) (s : Bytes) : Res (Nat × Nat) :=
+  match s.dropWhile (isCellSpaceNotDelimB delim) with
+  | [] => .ok (0, 0)
+  | b :: _ => if notDelimB delim b then gC (s.takeWhile nonStopB) else .ok (0, 0)
 
 /-- the cell loop on the bytes `s` that remain of the line -/
 def csvCellsS (gC : Bytes → Res (Nat × Nat)) (prm : CsvParam) : Nat → Bytes → CsvLine → Res CsvLine
@@ -21,7 +24,7 @@ def csvCellsS (gC : Bytes → Res (Nat × Nat)) (prm : CsvParam) : Nat → Bytes
     match s with
     | [] => .ok st
     | _ :: _ => do
-      let vk ← csvCellS gC s
+      let vk ← csvCellS gC prm.delim s
       let st := csvUpdate prm st vk.1 (vk.2 % 18446744073709551616 != 0)
       let rest := (s.drop vk.2).dropWhile (notDelimB prm.delim)
       if rest.isEmpty && st.idx == 0 then .error .check else
@@ -33,48 +36,49 @@ theorem sub64_add (p k : Nat) (hp : p < 2 ^ 64) : sub64 (p + k) p = k % 18446744
   rw [this]
   omega
 
+/-- a line (no end-of-line byte, no NUL) that holds a byte which is not cell space: the run the conversion is
+started on holds a byte that is not line space -/
 theorem cellSpace_any (s : Bytes) (hs : ∀ b ∈ s, isEolB b = false) (hn : ∀ b ∈ s, b ≠ 0)
-    (h : (s.dropWhile isCellSpaceB).isEmpty = false) :
+    (h : ∃ b ∈ s, isCellSpaceB b = false) :
     (s.takeWhile nonStopB).any (fun b => !isLineSpaceB b) = true := by
   have hall : s.takeWhile nonStopB = s := takeWhile_all _ _ (fun b hb => by
     have h1 := hs b hb
     have h2 := hn b hb
     simp [nonStopB, isStopB, h1, h2])
   rw [hall]
-  induction s with
-  | nil => simp at h
-  | cons b s ih =>
-    by_cases hb : isCellSpaceB b = true
-    · simp only [List.dropWhile, hb] at h
-      have := ih (fun x hx => hs x (by simp [hx])) (fun x hx => hn x (by simp [hx])) h
-        (takeWhile_all _ _ (fun x hx => by
-          have h1 := hs x (by simp [hx]); have h2 := hn x (by simp [hx]); simp [nonStopB, isStopB, h1, h2]))
-      simp [this]
-    · have h1 := hs b (by simp)
-      have : isLineSpaceB b = false := by
-        simp [isCellSpaceB, Gen.Parse.isspace, isLineSpaceB, ← UInt8.toNat_inj] at hb ⊢
-        omega
-      simp [this]
+  obtain ⟨b, hb, hc⟩ := h
+  have : isLineSpaceB b = false := by
+    simp [isCellSpaceB, Gen.Parse.isspace, isLineSpaceB, ← UInt8.toNat_inj] at hc ⊢
+    omega
+  exact List.any_eq_true.mpr ⟨b, hb, by simp [this]⟩
 
 theorem csvCellConv_at {conv : Conv} {gR gI gQ : Bytes → Res Nat} {gC : Bytes → Res (Nat × Nat)}
-    (hL : conv.LocalWith gR gI gQ gC) {mem : Bytes} {lend p : Nat} {s : Bytes} (ht : Term mem lend)
+    (hL : conv.LocalWith gR gI gQ gC) (delim : Nat) {mem : Bytes} {lend p : Nat} {s : Bytes} (ht : Term mem lend)
     (h : At mem p lend s) (hs : ∀ b ∈ s, isEolB b = false) (hn : ∀ b ∈ s, b ≠ 0) :
-    csvCellConv Fixes.repaired conv mem lend p = (csvCellS gC s).map (fun vk => (vk.1, p + vk.2)) := by
+    csvCellConv Fixes.repaired conv delim mem lend p = (csvCellS gC delim s).map (fun vk => (vk.1, p + vk.2)) := by
   have hfx : Fixes.repaired.csvBlankGuard = true := rfl
-  obtain ⟨q, eq, aq⟩ := scan_at (pred := isCellSpaceB) h
-  have hql : (q == lend) = (s.dropWhile isCellSpaceB).isEmpty := by
-    cases hd : s.dropWhile isCellSpaceB with
-    | nil => rw [hd] at aq; have : q = lend := aq.eq_stop_iff.mpr rfl; simp [this]
-    | cons x xs =>
-      rw [hd] at aq
-      have : q ≠ lend := by intro e; have := aq.eq_stop_iff.mp e; simp at this
-      simp [this]
-  simp only [csvCellConv, csvCellS, hfx, if_true, eq, bind, Except.bind, pure, Except.pure, hql]
-  by_cases hbl : (s.dropWhile isCellSpaceB).isEmpty = true
-  · simp [hbl, Except.map]
-  · simp only [hbl, if_false, Bool.false_eq_true]
-    have hrun := runAt_at h ht
-    rw [hL.cell mem p (by rw [hrun]; exact cellSpace_any _ hs hn (by simpa using hbl)), hrun]
+  have hfx2 : Fixes.repaired.csvDelimGuard = true := rfl
+  obtain ⟨q, eq, aq⟩ := scan_at (pred := isCellSpaceNotDelimB delim) h
+  simp only [csvCellConv, csvCellS, hfx, hfx2, if_true, eq, bind, Except.bind, pure, Except.pure]
+  cases hd : s.dropWhile (isCellSpaceNotDelimB delim) with
+  | nil =>
+    rw [hd] at aq
+    have : q = lend := aq.eq_stop_iff.mpr rfl
+    simp [this, Except.map]
+  | cons x xs =>
+    rw [hd] at aq
+    have hq : q ≠ lend := by intro e; have := aq.eq_stop_iff.mp e; simp at this
+    have hx : isCellSpaceNotDelimB delim x = false := dropWhile_head_false _ _ _ _ hd
+    simp only [hq, if_false, byteAt_at aq]
+    by_cases hnd : notDelimB delim x = true
+    · have hnd' : Gen.Parse.csvNotDelim x.toNat delim = true := hnd
+      have hxc : isCellSpaceB x = false := by simpa [isCellSpaceNotDelimB, hnd'] using hx
+      have hxs : x ∈ s := (List.dropWhile_suffix _).subset (by rw [hd]; simp)
+      have hrun := runAt_at h ht
+      simp only [hnd, hnd', Bool.not_true, Bool.false_eq_true, if_false, if_true]
+      rw [hL.cell mem p (by rw [hrun]; exact cellSpace_any _ hs hn ⟨x, hxs, hxc⟩), hrun]
+    · have hnd' : Gen.Parse.csvNotDelim x.toNat delim = false := by simpa [notDelimB] using hnd
+      simp [hnd, hnd', Except.map]
 
 theorem csvCells_at {conv : Conv} {gR gI gQ : Bytes → Res Nat} {gC : Bytes → Res (Nat × Nat)}
     (hL : conv.LocalWith gR gI gQ gC) (prm : CsvParam) {mem : Bytes} {lend : Nat} (ht : Term mem lend)
@@ -94,8 +98,8 @@ theorem csvCells_at {conv : Conv} {gR gI gQ : Bytes → Res Nat} {gC : Bytes →
     | cons b s =>
       have hne : p ≠ lend := by intro e; have := h.eq_stop_iff.mp e; simp at this
       have hp : p < 2 ^ 64 := by have := h.2; omega
-      simp only [csvCells, csvCellsS, hne, if_false, bind, Except.bind, csvCellConv_at hL ht h hs hn]
-      cases hg : csvCellS gC (b :: s) with
+      simp only [csvCells, csvCellsS, hne, if_false, bind, Except.bind, csvCellConv_at hL prm.delim ht h hs hn]
+      cases hg : csvCellS gC prm.delim (b :: s) with
       | error e => simp [Except.map]
       | ok vk =>
         obtain ⟨v, k⟩ := vk
